@@ -228,10 +228,20 @@ static void runScenario(uint64_t caseNo, Rng & rng, const char * polName)
 			R->published[i].store(1, std::memory_order_release);
 			initial[key].push_back(i);
 		}
+		// a sixth of the histories take the list(s) across the wrap of the generation counter while the threads run: the renumbering of
+		// all nodes that the wrap triggers (inside append/prepend/insert) must be as well synchronised as any other structural change
+		const bool nearWrap = rng.chance(1, 6);
+		if(nearWrap) {
+			count("near_wrap_histories");
+			for(int key = 0; key < Target::nkeys; ++key) {
+				typename Target::L * l = R->t.peek(key);
+				if(l) Access::setCounter(*l, 0xffffffffu - rng.below((uint32_t)(budgetOps / 3 + 1)));
+			}
+		}
 		pickWindow(rng, R->nthreads);
 		Sched & sd = sched();
 		const uint64_t forcedBefore = sd.forced.load();
-		oplog(std::string("config ") + Target::name() + " " + polName + ": threads=" + num(R->nthreads) + " ops=" + num(budgetOps) + " pre-populated=" + num(npre)
+		oplog(std::string("config ") + Target::name() + " " + polName + ": threads=" + num(R->nthreads) + " ops=" + num(budgetOps) + " pre-populated=" + num(npre) + (nearWrap ? " generation-counter-near-wrap" : "")
 			+ " sched.mode=" + num(sd.mode.load()) + " tag=" + (sd.mode.load() == 2 ? tags().name[sd.tag.load()] : "-") + " role=" + num(sd.role.load()) + " nth=" + num(sd.nth.load()) + " delayUs=" + num(sd.delayUs.load()));
 
 		std::vector<std::thread> th;
@@ -250,6 +260,7 @@ static void runScenario(uint64_t caseNo, Rng & rng, const char * polName)
 		}
 		for(size_t i = 0; i < th.size(); ++i) th[i].join();
 		sched().mode = 0;
+		if(nearWrap) for(int key = 0; key < Target::nkeys; ++key) { typename Target::L * l = R->t.peek(key); if(l && Access::counter(*l) < 0x80000000u) count("near_wrap_histories_that_wrapped"); }
 		count("windows_forced", sd.forced.load() - forcedBefore);
 		if(sd.mode.load() == 2) count("targeted_cases");
 
